@@ -903,6 +903,7 @@ theorem applyAct_pres (s : State) (fh fw : List Nat) (a : Act) : s.Pres (applyAc
     · exact upgrade_like s _
     · exact Pres.refl s
   | cloneField k => simp only [applyAct]; split <;> mv_tac
+  | downgradeField k => simp only [applyAct]; split <;> mv_tac
 
 /-! ## operations, machine steps, operation boundaries -/
 
